@@ -203,7 +203,7 @@ def check_restarts(cur):
             if from_first and r != 0:
                 cur.v('restart_from_first_step_ignored', block=blk[0]['block'], first_restarted=r)
             for i, a in enumerate(blk):
-                if i > r and not a['post']['restart']:
+                if i > r and not a['post']['restart'] and not cfg.get('restart_late'):
                     cur.v('later_step_not_restarted', block=a['block'], slot=a['slot'], first_restarted=r)
             if bi + 1 < len(blks):
                 nb = blks[bi + 1][0]
@@ -440,7 +440,7 @@ def check_real(cur):
         prev_pivot = (rr, n_before) if rr is not None else None
         if rr is not None:
             for i, a in enumerate(blk):
-                if i > rr and not a['post']['restart']:
+                if i > rr and not a['post']['restart'] and not cfg.get('restart_late'):
                     cur.v('later_step_not_restarted', block=a['block'], slot=a['slot'], first_restarted=rr)
             if bi + 1 < len(blks):
                 nb = blks[bi + 1][0]
